@@ -1,0 +1,124 @@
+//! Verification-only call tracing, compiled only with `--cfg hbs_lms_verif`.
+//!
+//! When the environment variable `HBS_LMS_VERIF_TRACE` names a file, every call of the three
+//! public entry points (`hss_keygen`, `hss_sign` / `hss_sign_mut`, `hss_verify`) appends one JSON
+//! line with all of its inputs and outputs (hex) to that file, after the call has produced its
+//! result. Nothing is recorded, and nothing else changes, when the variable is not set. The
+//! model-based verification in `/verif` validates these lines - e.g. the ones the crate's own
+//! test suite produces - against its TLA+ specification.
+
+use std::fmt::Write as _;
+use std::io::Write as _;
+use std::string::String;
+use std::sync::Mutex;
+use std::vec::Vec;
+
+use crate::hasher::HashChain;
+use crate::hss::parameter::HssParameter;
+
+static LOCK: Mutex<()> = Mutex::new(());
+
+pub fn enabled() -> bool {
+    std::env::var_os("HBS_LMS_VERIF_TRACE").is_some()
+}
+
+pub fn hex(bytes: &[u8]) -> String {
+    let mut s = String::with_capacity(bytes.len() * 2);
+    for b in bytes {
+        let _ = write!(s, "{:02x}", b);
+    }
+    s
+}
+
+/// Name of the hash variant in the vocabulary of the specification.
+pub fn alg<H: HashChain>() -> String {
+    let name = core::any::type_name::<H>();
+    let short = name.rsplit("::").next().unwrap_or(name);
+    let known = match short {
+        "Sha256_256" => "sha256_n32",
+        "Sha256_192" => "sha256_n24",
+        "Sha256_128" => "sha256_n16",
+        "Shake256_256" => "shake256_n32",
+        "Shake256_192" => "shake256_n24",
+        "Shake256_128" => "shake256_n16",
+        _ => "",
+    };
+    if known.is_empty() {
+        std::format!("custom:{}", short)
+    } else {
+        String::from(known)
+    }
+}
+
+pub fn params<H: HashChain>(parameters: &[HssParameter<H>]) -> String {
+    let mut s = String::from("[");
+    for (i, p) in parameters.iter().enumerate() {
+        if i > 0 {
+            s.push(',');
+        }
+        let _ = write!(
+            s,
+            "[{},{}]",
+            p.get_lmots_parameter().get_winternitz(),
+            p.get_lms_parameter().get_tree_height()
+        );
+    }
+    s.push(']');
+    s
+}
+
+/// Callback invocations observed during one signing call: (argument, accepted).
+pub type CbLog = Vec<(Vec<u8>, bool)>;
+
+pub fn cb_json(log: &CbLog) -> String {
+    let mut s = String::from("[");
+    for (i, (arg, ok)) in log.iter().enumerate() {
+        if i > 0 {
+            s.push(',');
+        }
+        let _ = write!(
+            s,
+            "{{\"arg\":\"{}\",\"ret\":\"{}\"}}",
+            hex(arg),
+            if *ok { "ok" } else { "err" }
+        );
+    }
+    s.push(']');
+    s
+}
+
+/// Appends one line (a complete JSON object) to the trace file.
+pub fn emit(line: &str) {
+    if let Some(path) = std::env::var_os("HBS_LMS_VERIF_TRACE") {
+        let _guard = LOCK.lock();
+        if let Ok(mut f) = std::fs::OpenOptions::new()
+            .create(true)
+            .append(true)
+            .open(path)
+        {
+            let mut buf = String::with_capacity(line.len() + 1);
+            buf.push_str(line);
+            buf.push('\n');
+            let _ = f.write_all(buf.as_bytes());
+        }
+    }
+}
+
+std::thread_local! {
+    static NESTED: core::cell::Cell<bool> = const { core::cell::Cell::new(false) };
+}
+
+/// `true` when tracing is switched on and this thread is not already inside a traced call; the
+/// caller then runs the traced function once more (that inner call sees `enter() == false` and
+/// executes the function's ordinary body), records what it observed and calls `leave()`.
+pub fn enter() -> bool {
+    if !enabled() || NESTED.with(|n| n.get()) {
+        return false;
+    }
+    NESTED.with(|n| n.set(true));
+    true
+}
+
+pub fn leave() {
+    NESTED.with(|n| n.set(false));
+}
